@@ -263,15 +263,16 @@ def edits_preserve_valid_statement : Prop :=
 
 /-- **edits_preserve_valid_partial.** If every feature of `w` is valid and `AddFeature(f)` is accepted,
 every feature of the resulting world is valid — for all worlds, features and oracles — given that a
-replacement keeps the kind of the feature it replaces (IDs carry the feature type). The referrers
+replacement keeps the kind of the feature it replaces (IDs carry the feature type; type 9 is the model's
+marker for inline path points, never a feature). The referrers
 that `AddFeature` re-validates are the set C15's `find_refs_spec` guarantees: closed under
 "references a member" (the model's `referrers` answers only with a set it has found closed). -/
 theorem edits_preserve_valid_partial (O : Oracle) (w w' : World) (f : Feat) (hu : Uniq w)
     (hv : allValid O w = true)
-    (hk : ∀ g ∈ w, g.id = f.id → sameCtor g f = true)
+    (hk : ∀ g ∈ w, g.id = f.id → sameCtor g f = true) (hfid : f.id.1 ≠ 9)
     (h : addFeature O w f = .ok w') : allValid O w' = true := by
   simp only [allValid, List.all_eq_true] at hv ⊢
-  exact edits_valid O w w' f hu hv hk h
+  exact edits_valid O w w' f hu hv hk hfid h
 
 /-- **overlay_edits_preserve_valid_partial.** The same for `MutableOverlayWorld.AddFeature`, seen through
 the layered view `w`: the referrers `R` it re-validates come from the world's own `FindReferences`; if
@@ -280,11 +281,11 @@ every edit history: `R` is exactly the set of transitive referrers — an accept
 feature of the layered world valid. -/
 theorem overlay_edits_preserve_valid_partial (O : Oracle) (w w' : World) (f : Feat) (R : List Id) (hu : Uniq w)
     (hv : allValid O w = true)
-    (hk : ∀ g ∈ w, g.id = f.id → sameCtor g f = true)
+    (hk : ∀ g ∈ w, g.id = f.id → sameCtor g f = true) (hfid : f.id.1 ≠ 9)
     (hcl : closedSet w f.id R = true)
     (h : addFeatureWith O w f R = .ok w') : allValid O w' = true := by
   simp only [allValid, List.all_eq_true] at hv ⊢
-  exact edits_valid_with O w w' f R hu hv hk hcl h
+  exact edits_valid_with O w w' f R hu hv hk hfid hcl h
 
 /-- non-vacuity: moving point 2 under a closed path and its area is accepted and keeps the world valid -/
 def editW : World := [pt 1 1, pt 2 2, pt 3 3, ⟨(1, 10), .path [(0, 1), (0, 2), (0, 3), (0, 1)]⟩, ⟨(2, 20), .area [[(1, 10)]]⟩]
